@@ -5,7 +5,7 @@ from __future__ import annotations
 import numpy as np
 
 from vlib import statmodels as sm
-from vlib.common import CaseResult, exc_mech, rng_for, struct_hash
+from vlib.common import CaseResult, exc_mech, off, rng_for, struct_hash
 
 ID = "C02"
 RULE = (
@@ -97,7 +97,7 @@ def judge(res, b, desc, values, x64, what, w):
         if user.get(k):
             exp[k] = float(np.sum(sm.user_value(k, values, user.get(k))))
             res.mon("user_node_forwarded")
-            if abs(got[k] - exp[k]) > t + 1e-5 * abs(exp[k]):
+            if off(got[k], exp[k], t + 1e-5 * abs(exp[k])):
                 res.violation("user-node-not-forwarded", f"{what}: user-supplied {k} node gives {exp[k]} but model.{k} = {got[k]}", w)
     for k, mon in (("log_prob", "log_prob_equals_joint_density"), ("log_lik", "log_lik_equals_observed_sum"),
                    ("log_prior", "log_prior_equals_parameter_sum")):
@@ -109,7 +109,7 @@ def judge(res, b, desc, values, x64, what, w):
                           f"{exp[k]!r} (|diff| {abs(got[k] - exp[k]):.3g} > tol {t:.3g})", w)
     if o["all_classified"] and not user:
         res.mon("decomposition_adds_up")
-        if abs(got["log_prob"] - (got["log_lik"] + got["log_prior"])) > t:
+        if off(got["log_prob"], got["log_lik"] + got["log_prior"], t):
             res.violation("decomposition", f"{what}: log_prob {got['log_prob']} != log_lik {got['log_lik']} + log_prior "
                           f"{got['log_prior']} although every distribution is observed xor parameter", w)
     return got
@@ -174,11 +174,30 @@ def case_program(case, res):
             continue
         res.mon("per_obs_invariance")
         for k in g1:
-            if abs(g1[k] - g2[k]) > tol(x64, o["abs_terms"], o["cond"]):
+            if off(g1[k], g2[k], tol(x64, o["abs_terms"], o["cond"])):
                 res.violation("per-obs-changes-total", f"{k} = {g1[k]} but {g2[k]} after flipping per_obs on {sorted(flip)}", w)
                 break
         if len(res.violations) >= 3:
             break
+    # the same variables taken out of the model, given new values while they belong to no model, and built again:
+    # the totals of the new model are those at the current values
+    if not desc["user"] and case["idx"] % 4 == 2 and not res.violations:
+        import jax.numpy as jnp
+        import liesel.model as lsl
+
+        nodes_, vars_ = b.model.pop_nodes_and_vars()
+        vals = sm.initial_values(desc, rng)
+        for it in desc["items"]:
+            if it["t"] != "var":
+                continue
+            v = np.asarray(vals[it["name"]], np.float64)
+            if it["name"] in b.transformed:
+                b.transformed[it["name"]].value = jnp.asarray(sm.to_unconstrained(sm.bij_kind(it), v), b.ft)
+            else:
+                b.objs[it["name"]].value = jnp.asarray(v, b.ft)
+        b.model = lsl.GraphBuilder(to_float32=not x64).add(*nodes_.values(), *vars_.values()).build_model()
+        res.mon("rebuilt_after_values_changed_outside_a_model")
+        judge(res, b, desc, vals, x64, "model rebuilt from popped nodes whose values were changed outside any model", w)
     # shapes of stored log-densities follow per_obs
     for it in desc["items"]:
         if it["t"] == "var" and it["fam"] != "MVNDegenerate":
